@@ -498,7 +498,15 @@ impl Prop for C20 {
         } else {
             let mut cfg = producer_cfg(&mut g);
             cfg.nasty_strings = g.chance(1, 2);
-            let prog = gen_program(rc.run_seed, &cfg);
+            let mut prog = gen_program(rc.run_seed, &cfg);
+            if rc.index % 16 == 9 {
+                // XML beyond 64 KiB made of multi-byte characters: whatever a tool does block-wise
+                // (64 KiB is a common block size) meets characters that straddle a block border
+                let unit = *g.pick(&["\u{20ac}", "\u{e4}", "\u{1d11e}", "a\u{20ac}"]);
+                let n = 70_000 / unit.len() + g.usize_below(2000);
+                prog.calls.retain(|c| !matches!(c, Call::CoordMeta(_)));
+                prog.calls.insert(0, Call::CoordMeta(Some(unit.repeat(n))));
+            }
             let source = if rc.index % 4 == 1 {
                 Source::Writer
             } else {
